@@ -62,6 +62,9 @@ func (j *jsonCodec) HandleRead(ctx netty.InboundContext, message netty.Message) 
 	var object = make(map[string]interface{})
 	utils.Assert(jsonDecoder.Decode(&object))
 
+	// the JSON value `null` is accepted by Decode and leaves a nil map: it is not an object
+	utils.AssertIf(nil == object, "json: frame is not a JSON object")
+
 	// post object
 	ctx.HandleRead(object)
 }
